@@ -56,7 +56,7 @@ def replay(d):
     reg = dsl.registry()
     q = d["function"]
     c = reg["contracts"][q]
-    fn, kind = dsl.resolve_function(q)
+    fn, kind = dsl.resolve_function(q.split("#")[0])
     objs = {}
     order = d["concrete"]["order"]
     params = {p: build_value(d["concrete"]["params"][p], objs) for p in order}
